@@ -61,7 +61,7 @@ func checkC04(c *Ctx) {
 	tab := c.pipelineTable()
 	rng := rand.New(rand.NewSource(c.Seed))
 	gs := append(curatedSyn(), repoSynGrammars()...)
-	n := c.pick(60, 500)
+	n := c.pick(60, 4000)
 	for i := 0; i < n; i++ {
 		o := c04Opts
 		if i%3 == 0 {
